@@ -8,7 +8,16 @@ import (
 	"os"
 )
 
-// IsKeyReadError return true if error is os.ErrNotExist compatible and NoKeyFoundExit
+// IsKeyReadError return true if error is a failure to find or to read a key file and NoKeyFoundExit
 func IsKeyReadError(err error) bool {
-	return (errors.Is(err, fs.ErrNotExist) || os.IsNotExist(err) || errors.Is(err, api.ErrNotExist)) && keystore2.NoKeyFoundExit
+	if !keystore2.NoKeyFoundExit {
+		return false
+	}
+	if errors.Is(err, fs.ErrNotExist) || os.IsNotExist(err) || errors.Is(err, api.ErrNotExist) {
+		return true
+	}
+	// A key file that exists but cannot be read (I/O error, permissions) is no reason to go on without the key:
+	// the callers stop processing on a key read error instead of letting the data through as it is.
+	var pathErr *fs.PathError
+	return errors.As(err, &pathErr)
 }
